@@ -32,6 +32,30 @@ def ceilDivFloat (a b : Int) : PyM Int := if b = 0 then .error zeroDiv else .ok 
 /-- `a ** b` on ints with an int result (negative exponents give a float in Python: unsupported). -/
 def pow (a b : Int) : PyM Int := if b < 0 then .error (.Other "FloatResult") else .ok (a ^ b.toNat)
 
+/-- `a & b` on ints; Python's two's-complement reading of a negative operand is outside the subset. -/
+def bitAnd (a b : Int) : PyM Int :=
+  if a < 0 ∨ b < 0 then .error (.Other "NegativeOutsideSubset") else .ok ((a.toNat &&& b.toNat : Nat) : Int)
+
+/-- `a | b` on ints (non-negative operands, as for `bitAnd`). -/
+def bitOr (a b : Int) : PyM Int :=
+  if a < 0 ∨ b < 0 then .error (.Other "NegativeOutsideSubset") else .ok ((a.toNat ||| b.toNat : Nat) : Int)
+
+/-- `a << b`: `a * 2**b`; a negative count raises ValueError. -/
+def shl (a b : Int) : PyM Int := if b < 0 then .error .ValueError else .ok (a * 2 ^ b.toNat)
+
+/-- `a >> b`: floor of `a / 2**b` (also for negative `a`); a negative count raises ValueError. -/
+def shr (a b : Int) : PyM Int := if b < 0 then .error .ValueError else .ok (a >>> b.toNat)
+
+/-- `range(a, b, c)` as a list; `c = 0` raises ValueError. -/
+def range3 (a b c : Int) : PyM (List Int) :=
+  if c = 0 then .error .ValueError
+  else
+    let n : Int := if c > 0 then Int.fdiv (b - a + c - 1) c else Int.fdiv (a - b + (-c) - 1) (-c)
+    .ok ((List.range n.toNat).map (fun (k : Nat) => a + (k : Int) * c))
+
+/-- `buf[i]` on a `bytes` / `bytearray`: an int in `range(256)` -/
+def byteAt (buf : Bytes) (i : Int) : PyM Int := (pyIndex buf i).map (fun x => (x.toNat : Int))
+
 /-- `chr(n)`; lone surrogates are not representable as a Lean `Char`. -/
 def chr (n : Int) : PyM Text :=
   if n < 0 ∨ n ≥ 0x110000 then .error .ValueError
